@@ -837,6 +837,18 @@ class _AdaptiveStepRK(_RungeKuttaBase):
         if not hasattr(self, "_err_exp") or self._err_exp == 0:
             self._err_exp = 1.0 / (self._p)
 
+    def validate_inputs(self, system, y0, t_vals) -> None:
+        super().validate_inputs(system, y0, t_vals)
+        # The adaptive drivers only march forward (their loops run while
+        # t < t_end); on a decreasing grid they would return the initial state
+        # at every sample.  Backward propagation is expressed by wrapping the
+        # system in a _DirectedSystem and keeping the grid increasing.
+        if t_vals[-1] < t_vals[0]:
+            raise ValueError(
+                "Adaptive Runge-Kutta integrators require an increasing time grid; "
+                "use a direction-reversed system for backward propagation"
+            )
+
 
 @numba.njit(cache=False, fastmath=FASTMATH)
 def rk45_step_jit_kernel(f, t, y, h, A, B_HIGH, C, E):
